@@ -88,6 +88,8 @@ def run_case(c):
         R.append(call("determine", dict(i, flags="default", same_list=True), lambda: both(chord, shared=True)))
     elif k in ("triple", "random", "theory", "extended"):
         R.append(call("determine", {"kind": k, "chord": ch, "base": [], "k": 0, "flags": "default"}, lambda: both(chord)))
+        if len(chord) >= 4:
+            R.append(call("determine", {"kind": k, "chord": ch, "base": [], "k": 0, "flags": "default", "same_list": True}, lambda: both(chord, shared=True)))
     elif k == "small":
         def f():
             r = chords.determine(list(chord))
